@@ -103,6 +103,17 @@ type Stmt struct {
 	sess.Stmt
 	Kind  string
 	Write bool
+	// ShadowMsgs, when set, is what the reference (shadow) database executes instead of Msgs:
+	// the plaintext statement equivalent to a statement that carries a value the application
+	// already encrypted
+	ShadowMsgs []pgproto3.FrontendMessage
+}
+
+func (st Stmt) forShadow() []pgproto3.FrontendMessage {
+	if st.ShadowMsgs != nil {
+		return st.ShadowMsgs
+	}
+	return st.Msgs
 }
 
 func Mk(kind, desc string, write, prot bool, msgs []pgproto3.FrontendMessage, secrets ...[]byte) Stmt {
@@ -201,11 +212,11 @@ func (rn *Runner) Run(stmts []Stmt) (viol []Violation, state string, harness str
 		}
 		var want []sess.Msg
 		if reference != nil {
-			want = reference.Direct(st.Msgs)
+			want = reference.Direct(st.forShadow())
 		} else {
 			want = res.DBSent
 			if st.Write {
-				shadow.Direct(st.Msgs) // keep the shadow in step with what was written
+				shadow.Direct(st.forShadow()) // keep the shadow in step with what was written
 			}
 		}
 		if h := HarnessErr(res.DBSent); h != "" {
